@@ -399,6 +399,64 @@ static void write_client_file(struct client_data *c, char *filename, int nr, ...
 }
 
 /*
+ * Different spellings of one directory ("sess", "./sess", "sess/", "a/../sess")
+ * must not pass for different directories: normalise the name lexically
+ * (no "." and empty components, ".." removes the component before it).
+ */
+static char *normalize_dirname(const char *name)
+{
+	char *out = xmalloc(strlen(name) + 2);
+	size_t len = 0;
+	size_t floor = 0; /* ".." cannot remove anything before this */
+	const char *p = name;
+
+	if (*p == '/') {
+		out[len++] = '/';
+		floor = 1;
+	}
+
+	while (*p) {
+		const char *end;
+		size_t n;
+		bool dotdot;
+
+		while (*p == '/')
+			p++;
+		end = p;
+		while (*end && *end != '/')
+			end++;
+		n = end - p;
+		if (n == 0)
+			break;
+
+		dotdot = (n == 2 && p[0] == '.' && p[1] == '.');
+		if (n == 1 && p[0] == '.') {
+			/* skip */
+		}
+		else if (dotdot && len > floor) {
+			while (len > floor && out[len - 1] != '/')
+				len--;
+			if (len > floor)
+				len--;
+		}
+		else {
+			if (len > 0 && out[len - 1] != '/')
+				out[len++] = '/';
+			memcpy(out + len, p, n);
+			len += n;
+			if (dotdot)
+				floor = len;
+		}
+		p = end;
+	}
+
+	if (len == 0)
+		out[len++] = '.';
+	out[len] = '\0';
+	return out;
+}
+
+/*
  * Is a connected client writing to this directory, or to the directory
  * that create_directory() would remove to make room for 'dirname.old'?
  */
@@ -420,6 +478,7 @@ static void recv_trace_dir_name(int sock, int len)
 {
 	char dirname[len + 1];
 	struct client_data *client;
+	char *name;
 	int i;
 
 	if (read_all(sock, dirname, len) < 0)
@@ -429,16 +488,18 @@ static void recv_trace_dir_name(int sock, int len)
 	client = xmalloc(sizeof(*client));
 
 	client->sock = sock;
-	client->dirname = xstrdup(dirname);
+	name = normalize_dirname(dirname);
+	client->dirname = xstrdup(name);
 	INIT_LIST_HEAD(&client->list);
 
 	/* the name is chosen by the client: keep the data of connected clients apart */
 	for (i = 1; dirname_in_use(client->dirname); i++) {
 		free(client->dirname);
-		xasprintf(&client->dirname, "%s.%d", dirname, i);
+		xasprintf(&client->dirname, "%s.%d", name, i);
 	}
 	if (i > 1)
-		pr_warn("%s is in use by another client: saving to %s\n", dirname, client->dirname);
+		pr_warn("%s is in use by another client: saving to %s\n", name, client->dirname);
+	free(name);
 
 	create_directory(client->dirname);
 	pr_dbg3("create directory: %s\n", client->dirname);
